@@ -402,6 +402,11 @@ SessionStates == {"dhcp-ack",           \* Session.DHCPv4Update(src MAC, a LAN a
                   "captured",           \* Session.Capture(src MAC)
                   "captured-dhcp-ack",  \* both
                   "host-offline"}       \* the frame's source was tracked and has been marked offline by the ageing pass
+(* table sizes: Parse must stay total (and decode the same) whatever the size of the host / MAC tables *)
+HostsPerMAC == {1, 16, 31, 32, 33, 64, 255, 256}
+TableStates == {"mac-hosts-1", "mac-hosts-16", "mac-hosts-31", "mac-hosts-32", "mac-hosts-33", "mac-hosts-64",
+                "mac-hosts-255", "mac-hosts-256",   \* the source MAC already owns at least N tracked addresses (IPv4 in-LAN + link-local)
+                "many-macs"}                        \* 320 other MACs are tracked, one IPv4 / link-local address each
 LogLevels == {"error", "info", "debug"}  \* fastlog levels; "info" is the default of the package, "error" what the harness uses elsewhere
 StateShapes ==
   ShapesApp \cup ShapesSrc \cup {x \in ShapesPorts : {x.sport, x.dport} \cap {67, 68} # {}}
@@ -415,6 +420,7 @@ ConfigCases ==
   \cup {[env |-> Env("default", st, "error"), s |-> x] : st \in SessionStates, x \in StateShapes}
   \cup {[env |-> Env("default", "none", lg), s |-> x] : lg \in LogLevels \ {"error"}, x \in LogShapes}
   \cup {[env |-> Env("default", "dhcp-ack", "debug"), s |-> x] : x \in ShapesApp}
+  \cup {[env |-> Env("default", st, "error"), s |-> x] : st \in TableStates, x \in ShapesSrc}
 
 ParseShapes == ShapesEchoWaiter \cup ShapesShort \cup ShapesL2 \cup ShapesIP4Hdr \cup ShapesIP4L4 \cup ShapesIP6Hdr
                \cup ShapesIP6L4 \cup ShapesPorts \cup ShapesARP \cup ShapesSrc \cup ShapesVlanInner \cup ShapesApp
@@ -473,6 +479,13 @@ AllocCases ==
   {[s |-> c.s, status |-> c.status, quiet |-> "none", log |-> lg] : c \in AllocBase, lg \in {"error", "default"}}
   \cup {[s |-> c.s, status |-> c.status, quiet |-> "quiet", log |-> lg] :
            c \in {x \in AllocBase : x.status = "tracked"}, lg \in {"error", "default"}}
+
+(* Steady state with MANY hosts: frames of several tracked, online hosts interleaved.  A set is measured as a whole  *)
+(* (round robin over the frames of all its hosts); the per-frame average must be 0.  "pair-*" sets alternate two hosts *)
+(* whose addresses collide under a simple fold of the 16 address bytes (what a direct-mapped lookup cache would use). *)
+AllocSets == {[name |-> "round-robin", hosts |-> n, families |-> fam] : n \in {2, 16, 64, 200}, fam \in {"ip4", "ip6", "dual", "dual+arp"}}
+             \cup {[name |-> nm, hosts |-> 2, families |-> "dual"] :
+                    nm \in {"pair-xor-fold", "pair-sum-fold", "pair-low-byte", "pair-crc8", "pair-v4-v6-same-fold"}}
 
 AllocExpect(c) == [allocFree |-> AllocFree(c.status), quiet |-> c.quiet, log |-> c.log,
                    hostSet |-> Tracks(c.s) /\ Unicast(c.s.src) /\ c.s.path \in {"ip4", "ip6", "arp"},
@@ -612,6 +625,7 @@ FieldVectors ==
 (*   raw : byte overrides for structure that is not a fixed field (TLVs, options)                *)
 (* expectation: wf (well-formed PDU by the RFC), ranges (derived slices, relative to the view),  *)
 (* absent (getters that must return an empty result)                                             *)
+Fill(n, x) == [i \in 1..n |-> x]
 S1(g, v) == [g |-> g, v |-> v]
 Raw(off, b) == [off |-> off, b |-> b]
 Rn(g, lo, hi) == [g |-> g, lo |-> lo, hi |-> hi]
@@ -705,6 +719,24 @@ ViewDHCP4 ==
          zs \in {{}, {Raw(44, <<0>>)}, {Raw(60, <<0>>)}, {Raw(107, <<0>>)}},
          zf \in {{}, {Raw(108, <<0>>)}, {Raw(200, <<0, 0>>)}, {Raw(235, <<0>>)}}}
 
+(* RFC 2131 4.1 / RFC 2132 9.3: with option 52 (overload) the BOOTP `file` (108..235) and / or `sname` (44..107)   *)
+(* fields carry options too.  Every byte range of the BOOTP header is potentially option-bearing: content classes  *)
+(* of both fields x option 52 {absent, 1, 2, 3}.  IsValid()==nil must keep ParseOptions() panic-free and inside the *)
+(* view whatever these fields hold (the package does not implement overload: values of ParseOptions not compared). *)
+FieldContents(n) == {Fill(n, 0),                                   \* zero
+                     <<97, 98, 99, 0>>,                            \* text
+                     <<12, 3, 97, 98, 99, 255>> \o Fill(n - 6, 0), \* well-formed TLVs, end, padding
+                     <<12, 250>>,                                  \* TLV running far past the field (and past the view)
+                     <<0, 0, 12, n - 3>>,                          \* TLV running one byte past the field
+                     <<12, n - 2>> \o Fill(n - 2, 120)}            \* TLV ending exactly at the end of the field
+OverloadOpts == {<<53, 1, 1, 255>>, <<52, 1, 1, 53, 1, 1, 255>>, <<52, 1, 2, 53, 1, 1, 255>>, <<52, 1, 3, 53, 1, 1, 255>>,
+                 <<53, 1, 1, 52, 1, 3, 255>>}
+ViewDHCP4Overload ==
+  {VS("DHCP4", 240 + Len(o) + x, {S1("OpCode", 1), S1("HLen", 6)},
+      {Raw(236, <<99, 130, 83, 99>>), Raw(240, o), Raw(240 + Len(o), Fill(x, 0)), Raw(44, sn), Raw(108, fl)},
+      TRUE, {Rn("Options", 240, 240 + Len(o) + x)}, {}) :
+      o \in OverloadOpts, sn \in FieldContents(64), fl \in FieldContents(128), x \in {0, 60}}
+
 ViewSmall ==
   Fixed("DNS", {0, 11, 12, 13, 17, 40, 512}, 12, LAMBDA n : {})
   \cup Fixed("SNAP", {8, 9, 10, 20}, 9, LAMBDA n : {Rn("Payload", 8, n)})
@@ -720,7 +752,6 @@ ViewSmall ==
 
 (* LLDP (IEEE 802.1AB 8.4): TLV header = 7-bit type, 9-bit length; mandatory chassis, port, TTL, end *)
 TLVHdr(t, l) == <<2 * t + (l \div 256), l % 256>>
-Fill(n, x) == [i \in 1..n |-> x]
 ViewLLDP ==
   {VS("LLDP", 2 + l1 + 2 + l2 + 4 + 2 + tail, {},
       {Raw(0, TLVHdr(1, l1)), Raw(2 + l1, TLVHdr(2, l2)), Raw(4 + l1 + l2, <<6, 2, 0, 120>>), Raw(8 + l1 + l2, <<0, 0>>)},
@@ -736,7 +767,7 @@ ViewHBH ==
       n \in {1, 2, 7, 8, 9, 10, 16, 18, 26}, l \in {0, 1, 2, 255}, o \in HbhOpts}
 
 ViewShapes == ViewEther \cup ViewIP4 \cup ViewIP6 \cup ViewUDP \cup ViewTCP \cup ViewARP \cup ViewICMP
-              \cup ViewRedirect4 \cup ViewNDP \cup ViewDHCP4 \cup ViewSmall \cup ViewLLDP \cup ViewHBH
+              \cup ViewRedirect4 \cup ViewNDP \cup ViewDHCP4 \cup ViewDHCP4Overload \cup ViewSmall \cup ViewLLDP \cup ViewHBH
 
 (* a long, well-formed base instance per view on which the field vectors are written *)
 BaseView == [v \in ViewNames |->
